@@ -77,6 +77,18 @@ def admissibleE (cfg : Cfg) (ctxTTL : Int) (t0 t1 E : Time) : Bool :=
   | none => E == 0
   | some (lo, hi) => E != 0 && lo ≤ E && E ≤ hi
 
+/-! The statement of C12's trigger and amount, spelled with literals (0 = option unset, 1/10 = default EvictFraction): what
+    JUDGES an observed cleanup cycle does not follow the decision kernels regenerated from the source
+    (`C12_oracle_is_the_model` proves it equal to the model's plan for the kernels of the unchanged tree). -/
+def specCountOver (cfg : Cfg) (n : Nat) : Bool := cfg.countSoftLimit != 0 && n > cfg.countSoftLimit
+
+def specShouldEvict (cfg : Cfg) (n : Nat) (env : CleanupEnv) : Bool :=
+  env.ho || env.so || specCountOver cfg n || (env.hasNeeded && env.needed)
+
+def specAmount (cfg : Cfg) (n : Nat) : Nat × Nat :=
+  let (fn, fd) := if cfg.efn == 0 then (1, 10) else (cfg.efn, cfg.efd)
+  if specCountOver cfg n then (n * fd - cfg.countSoftLimit * (fd - fn), fd) else (n * fn, fd)
+
 def showEntry (e : Entry) : String := s!"{e.K}:{showOptVal e.V}:{e.E}:{e.C}"
 
 def dumpStore (s : Store) : String :=
@@ -196,13 +208,12 @@ def stepInst (i : Inst) (op : String) (a : List String) : Option (Inst × String
                    | none => i.totals }
       if !missingScan.isEmpty then
         pure (finish 0, s!"bad-scan model-deletes={showNatList scanned} impl-removed={showNatList removed}")
-      else match plan with
-        | none =>
+      else match specShouldEvict i.cfg sA.len env with
+        | false =>
           if rest.isEmpty then pure (finish 0, s!"ok scanned={scanned.length} evicted=none")
           else pure (finish 0, s!"bad-evict no-breach-but-removed={showNatList rest}")
-        | some _ =>
-          let co := countOverflow i.cfg sA.len
-          let (p, q) := evictAmount i.cfg sA.len co
+        | true =>
+          let (p, q) := specAmount i.cfg sA.len
           let k := match evictedObs with
             | some k => k
             | none => rest.length
